@@ -18,9 +18,10 @@ TICK = W.TICK
 
 
 class E2E:
-    def __init__(self, cimpl, simpl, scfg=None, ccfg=None, seed=0, latency=0):
+    def __init__(self, cimpl, simpl, scfg=None, ccfg=None, seed=0, latency=0, http_latency=0):
         self.cimpl, self.simpl = cimpl, simpl
         self.latency = latency        # ticks a websocket frame spends on the wire
+        self.http_latency = http_latency   # ticks an HTTP request / response spends on the wire
         self.wire = []                # (due time, n, fn)
         self._n = 0
         self.hub = hubmod.Hub(seed=seed)
@@ -43,11 +44,36 @@ class E2E:
             sw_ev(slot, e)
             e2e.log.append('s' + e)
 
+        # The client runs its message handlers as background tasks (run_async=True): a message
+        # event *fires* when the read loop triggers it, the handler may run later (e.g. after
+        # the disconnect event of a CLOSE that arrived right behind).  The ordered log records
+        # message events where they fire; the handler runs are counted and must catch up.
+        self.c_fired = self.c_ran = 0
+
         def c_ev(e):
             cw_ev(e)
-            e2e.log.append('c' + e)
+            if e.startswith('msg:'):
+                e2e.c_ran += 1
+            else:
+                e2e.log.append('c' + e)
         self.sw._ev = s_ev
         self.cw._ev = c_ev
+        cl = self.cw.client
+        trig0 = cl._trigger_event
+
+        def fired(event, args):
+            if event == 'message':
+                e2e.c_fired += 1
+                e2e.log.append('cmsg:' + W.srv_token(1, args[0]))
+        if cimpl == 'sync':
+            def trig(event, *args, **kw):
+                fired(event, args)
+                return trig0(event, *args, **kw)
+        else:
+            async def trig(event, *args, **kw):
+                fired(event, args)
+                return await trig0(event, *args, **kw)
+        cl._trigger_event = trig
 
     # ---- clock / scheduling ------------------------------------------------------------------
     def now(self):
@@ -65,14 +91,15 @@ class E2E:
                 return
         raise RuntimeError('e2e world does not quiesce')
 
-    def later(self, fn):
+    def later(self, fn, lat=None):
         """Put something on the wire: delivered after `latency` ticks (at once if 0)."""
-        if not self.latency:
+        lat = self.latency if lat is None else lat
+        if not lat:
             fn()
             return
         import heapq
         self._n += 1
-        heapq.heappush(self.wire, (self.now() + self.latency * TICK, self._n, fn))
+        heapq.heappush(self.wire, (self.now() + lat * TICK, self._n, fn))
 
     def next_deadline(self):
         a, b = self.hub.next_deadline(), self.loop.next_deadline()
@@ -108,13 +135,19 @@ class E2E:
         u = urllib.parse.urlparse(url)
         body = data.encode('utf-8') if isinstance(data, str) else (data or b'')
         hdrs = {k: v for k, v in (headers or {}).items()}
-        rid = self.sw.http(method, u.query, headers=hdrs, body=body, slot=self._slot())
-        r = self.sw.reqs[rid]
-        if r.done:
-            on_done(r)
-        else:
-            r.on_done = on_done
-        return r
+        hl = self.http_latency
+
+        def deliver():
+            rid = self.sw.http(method, u.query, headers=hdrs, body=body, slot=self._slot())
+            r = self.sw.reqs[rid]
+
+            def back(r_):
+                self.later(lambda: on_done(r_), hl)     # the response travels too
+            if r.done:
+                back(r)
+            else:
+                r.on_done = back
+        self.later(deliver, hl)
 
     def _slot(self):
         sid = getattr(self.cw.client, 'sid', None)
@@ -180,10 +213,13 @@ class _SyncClient(CW.SyncClientWorld):
         def frame(msg):
             self.e2e.later(lambda: conn['inq'].put(msg))
 
-        def closed():
+        def closed_now():
             if conn['state'] == 'open':
                 conn['state'] = 'closed'
                 conn['inq'].put(CW._CLOSED)
+
+        def closed():
+            self.e2e.later(closed_now)
         sconn = self.e2e.net_ws(url, acc, ref, frame, closed)
         ok = ev.wait(opts.get('timeout'))
         if not ok or not conn['accept']:
@@ -216,8 +252,9 @@ class _SyncWsE2E(CW._SyncWs):
             self.conn['state'] = 'closedbyclient'
             self.connected = False
             self.conn['inq'].put(CW._CLOSED)
-            if not self.sconn.peer_gone:
-                self.w.e2e.sw.ws_drop_conn(self.sconn)
+            e, sc = self.w.e2e, self.sconn
+            # the closure travels behind the frames already written (one ordered connection)
+            e.later(lambda: None if sc.peer_gone else e.sw.ws_drop_conn(sc))
 
 
 class _AsyncClient(CW.AsyncClientWorld):
@@ -264,10 +301,13 @@ class _AsyncClient(CW.AsyncClientWorld):
         def frame(msg):
             self.e2e.later(lambda: conn['inq'].put_nowait(msg))
 
-        def closed():
+        def closed_now():
             if conn['state'] == 'open':
                 conn['state'] = 'closed'
                 conn['inq'].put_nowait(CW._CLOSED)
+
+        def closed():
+            self.e2e.later(closed_now)
         sconn = self.e2e.net_ws(url, acc, ref, frame, closed)
         try:
             await asyncio.wait_for(fut, opts.get('timeout'))
@@ -302,16 +342,16 @@ class _AioWsE2E(CW._AioWs):
         if self.conn['state'] == 'open':
             self.conn['state'] = 'closedbyclient'
             self.conn['inq'].put_nowait(CW._CLOSED)
-            if not self.sconn.peer_gone:
-                self.w.e2e.sw.ws_drop_conn(self.sconn)
+            e, sc = self.w.e2e, self.sconn
+            e.later(lambda: None if sc.peer_gone else e.sw.ws_drop_conn(sc))
 
 
 # ---- conversation driver ---------------------------------------------------------------------
 
-def run_conversation(cimpl, simpl, scfg, script, seed=0, latency=0):
+def run_conversation(cimpl, simpl, scfg, script, seed=0, latency=0, http_latency=0):
     """script ops: connect(tr) csend(k) ssend(k) cdisc sdisc tick(t).  Returns the E2E trace:
     a list of steps [{'op', 'ev': [application events of both sides, in order]}] + facts."""
-    e = E2E(cimpl, simpl, scfg, seed=seed, latency=latency)
+    e = E2E(cimpl, simpl, scfg, seed=seed, latency=latency, http_latency=http_latency)
     steps = []
     facts = {'pair': cimpl + '-client/' + simpl + '-server', 'scfg': dict(e.sw.cfg)}
     nc = ns = 0
@@ -381,6 +421,7 @@ def run_conversation(cimpl, simpl, scfg, script, seed=0, latency=0):
                           'ctr': e.cw.client.current_transport or 'none',
                           'str': ('websocket' if so is not None and so.upgraded else 'polling')})
         facts['client_calls_blocked'] = [c['name'] for c in e.cw.calls.values() if not c['done']]
+        facts['client_handlers_not_run'] = e.c_fired - e.c_ran
     finally:
         e.close()
     return steps, facts
